@@ -724,8 +724,108 @@ func c01tokShape(t Tok, sb *strings.Builder, mailboxAt func() bool) {
 	}
 }
 
+// runC01EightBit: flags and mailbox attributes with 8-bit bytes. The library tolerates some of them in atoms, so
+// nothing is demanded about acceptance; but what one side's encoder accepts, the other side's decoder must read
+// back unchanged (encoder and decoder must agree on what an atom is).
+func runC01EightBit(r *R) {
+	t := r.P
+	clientEnc := t.Choose(2) == 0
+	isAttr := t.Choose(2) == 0
+	pool := []string{"é", "café", "日本", "€", "x\x85y", "Ж", "\xc3", "naïve", "Ünï", "a\u00a0b", "\xff", "ＡＢ", "\xe6\x97", "ok-ascii"}
+	n := 1 + t.Choose(3)
+	var vals []string
+	for i := 0; i < n; i++ {
+		v := pool[t.Choose(len(pool))]
+		if isAttr || t.Choose(3) == 0 {
+			v = "\\" + v
+		}
+		vals = append(vals, v)
+	}
+	segMode := t.Choose(3)
+	cfg := r.SchedConfig()
+	var encErr error
+	var got []string
+	var decErr string
+	r.Sim(cfg, func() {
+		ec, dc := r.Net.Pair("enc", "dec")
+		if segMode > 0 {
+			ec.SetSegMode(segMode)
+		}
+		encSide, decSide := vb.ConnSideServer, vb.ConnSideClient
+		if clientEnc {
+			encSide, decSide = vb.ConnSideClient, vb.ConnSideServer
+		}
+		encDone, decDone := make(chan struct{}), make(chan struct{})
+		simrt.GoTask("encoder", func() {
+			defer close(encDone)
+			enc := vb.NewEncoder(bufio.NewWriter(ec), encSide)
+			enc.List(len(vals), func(i int) {
+				if isAttr {
+					enc.MailboxAttr(imap.MailboxAttr(vals[i]))
+				} else {
+					enc.Flag(imap.Flag(vals[i]))
+				}
+			})
+			encErr = enc.CRLF()
+			if encErr != nil {
+				ec.Close()
+			}
+		})
+		simrt.GoTask("decoder", func() {
+			defer close(decDone)
+			dec := vb.NewDecoder(bufio.NewReader(dc), decSide)
+			err := dec.ExpectList(func() error {
+				var s string
+				if isAttr {
+					a, err := vb.ExpectMailboxAttr(dec)
+					if err != nil {
+						return err
+					}
+					s = string(a)
+				} else {
+					f, err := vb.ExpectFlag(dec)
+					if err != nil {
+						return err
+					}
+					s = string(f)
+				}
+				got = append(got, s)
+				return nil
+			})
+			if err == nil && !dec.ExpectCRLF() {
+				err = dec.Err()
+			}
+			if err != nil {
+				decErr = err.Error()
+			}
+		})
+		waitOrTimeout(decDone, time.Hour)
+		dc.Close()
+		waitOrTimeout(encDone, time.Hour)
+		ec.Close()
+	})
+	if r.Res.Infra != "" {
+		return
+	}
+	r.Nontrivial = true
+	r.Probe("eight-bit-flag-scenario")
+	if encErr != nil {
+		r.Probe("eight-bit-flag-refused")
+	} else {
+		r.Probe("eight-bit-flag-accepted")
+		if decErr != "" || fmt.Sprintf("%q", got) != fmt.Sprintf("%q", vals) {
+			r.Violate("round-trip", "eight-bit flag", "the encoder accepted %q (attributes: %v) without error, but the peer's decoder read %q (error: %s)", vals, isAttr, got, decErr)
+		}
+	}
+	r.CheckLiveness(false)
+}
+
 func runC01(r *R) {
 	t := r.P
+	if t.Choose(12) == 11 {
+		runC01EightBit(r)
+		return
+	}
 	clientEnc := t.Choose(2) == 0
 	quotedUTF8 := t.Choose(2) == 0
 	litMinus := t.Choose(3) == 0
